@@ -17,7 +17,7 @@ sys.path.insert(0, os.path.dirname(os.path.dirname(os.path.abspath(__file__))))
 import ast
 import z3
 from pyvc import xreal as xr
-from pyvc.numexec import NumExec, Num, Bool, Obj, Unsupported
+from pyvc.numexec import NumExec, Num, Bool, Obj, Unsupported, ANALYSIS
 from pyvc.solve import Obl, static, undecided
 from pyvc.runner import main
 from pyvc.source import NotFound, body_of
@@ -154,7 +154,7 @@ def verify_relational(run):
             b_ = z3.And(z3.Not(truth.nan), truth.inf == 0, truth.v == 1) if isfloat else ex.boo(v).b
             z_ = z3.And(z3.Not(truth.nan), truth.inf == 0, truth.v == 0) if isfloat else z3.Not(ex.boo(v).b)
             run.add(Obl(f"{fq}/ensures.indicator", [wa, wb] + ax.axioms(), z3.And(z3.Implies(rel(a, b), b_), z3.Implies(z3.Not(rel(a, b)), z_)), fn=fq, meta=rp))
-        except Unsupported as ex_:
+        except ANALYSIS as ex_:
             run.add(undecided(f"{fq}/subset", f"outside the verified subset: {ex_}", fn=fq, meta=rp))
 
 # ------------------------------------------------------------------------------------------------ Function.parse (postfix -> tree)
@@ -463,7 +463,7 @@ def build(run):
     for fq, f in plan:
         try:
             f(run)
-        except Unsupported as ex_:
+        except ANALYSIS as ex_:
             run.add(undecided(f"{fq}/subset", f"outside the verified subset: {ex_}", fn=fq))
         except NotFound as ex_:
             run.add(static(f"{fq}/exists", False, f"function under contract not found: {ex_}", fn=fq))
